@@ -268,6 +268,8 @@ func (p *nriPlugin) Synchronize(ctx context.Context, pods []*api.PodSandbox, con
 	defer b.Done()
 
 	m := p.resmgr
+	m.Lock()
+	defer m.Unlock()
 
 	allocated, released, err := p.syncWithNRI(pods, containers)
 	if err != nil {
@@ -329,7 +331,8 @@ func (p *nriPlugin) StopPodSandbox(ctx context.Context, podSandbox *api.PodSandb
 
 	m := p.resmgr
 
-	// TODO(klihub): shouldn't we m.Lock()/defer m.Unlock() here?
+	m.Lock()
+	defer m.Unlock()
 	b := metrics.Block()
 	defer b.Done()
 
@@ -371,6 +374,10 @@ func (p *nriPlugin) RemovePodSandbox(ctx context.Context, podSandbox *api.PodSan
 	}()
 
 	m := p.resmgr
+	m.Lock()
+	defer m.Unlock()
+	b := metrics.Block()
+	defer b.Done()
 
 	pod, ok := m.cache.LookupPod(podSandbox.GetId())
 	if !ok {
@@ -383,11 +390,6 @@ func (p *nriPlugin) RemovePodSandbox(ctx context.Context, podSandbox *api.PodSan
 		nri.Error("%s: failed to run post-release hooks for pod %s: %v",
 			event, pod.GetName(), err)
 	}
-
-	m.Lock()
-	defer m.Unlock()
-	b := metrics.Block()
-	defer b.Done()
 
 	m.cache.DeletePod(podSandbox.GetId())
 	return nil
